@@ -178,16 +178,23 @@ def run_mul(module, consts, which, mode, bconc=None, timeout_ms=600000, goals=('
 def prove_delta(ctx, hyps, OUT, RHS, p, deltas, budgets_ms, seed=0):
     """is OUT*R == RHS - d*p*R for one d of `deltas` (the number of modulus subtractions on this path)?"""
     n = 0
-    worst = None
+    verdict = {}
     for b in budgets_ms:
         for d in deltas:
+            if verdict.get(d) == 'sat':
+                continue
             n += 1
             r, mdl = check(ctx, hyps, OUT * RR == RHS - d * p * RR, b, seed)
             if r == 'unsat':
                 return 'unsat', d, n, None
+            verdict[d] = (r, mdl) if r == 'sat' else verdict.get(d, (r, None))
             if r == 'sat':
-                worst = mdl
-    return ('sat' if worst is not None else 'unknown'), None, n, worst
+                verdict[d] = 'sat'
+                last = mdl
+    # refuted only if EVERY admissible number of subtractions is refuted; otherwise undecided within the budget
+    if all(verdict.get(d) == 'sat' for d in deltas):
+        return 'sat', None, n, last
+    return 'unknown', None, n, None
 
 
 REPLAY_EXE = None
